@@ -97,11 +97,15 @@ func (h *DNSHandler) sendMDNSQuery(srcAddr packet.Addr, dstAddr packet.Addr, mty
 	//    question, it indicates that the querier is willing to accept unicast
 	//    replies in response to this specific query, as well as the usual
 	//    multicast responses.
+	qname, err := dnsmessage.NewName(name) // a name longer than 255 bytes is an error of the caller, not a reason to panic
+	if err != nil {
+		return err
+	}
 	msg := dnsmessage.Message{
 		Header: dnsmessage.Header{Response: false},
 		Questions: []dnsmessage.Question{
 			{
-				Name:  mustNewName(name),
+				Name:  qname,
 				Type:  mtype,
 				Class: dnsmessage.ClassANY,
 			},
